@@ -99,7 +99,10 @@ class Renderer(object):
                 ind = " " * self.rng.choice([0, 2, 6, 9])
             else:
                 ind = " " * (indent + 2)
-            n = self.raw(ind + q)
+            trail = ""
+            if self.layout and self.rng.random() < 0.2:
+                trail = self.rng.choice([" ", "   ", "\t"])       # invisible blanks behind the opening delimiter
+            n = self.raw(ind + q + trail)
             self.lines[key + ("doc",)] = n
             for ln in st["doc"].split("\n"):
                 # content lines are indented at least as far as the opening quotes; relative
